@@ -289,6 +289,39 @@ def wait_conditions(prog):
 
 from .. import guards as G_  # noqa: E402
 
+def releasing_writes(fn, fields, nodes):
+    """[(pos, record.field, text)]: the stores of fn that move a waiter's condition towards 'stop waiting'."""
+    writes = []
+    for s in fn.sites():
+        n = s.node
+        k = n.get("k")
+        if k == "un" and n.get("op") in ("--", "++") and n["e"].get("k") == "mem":
+            lf = last_field(n["e"])
+            if lf in fields and ((n["op"] == "--") == (fields[lf] > 0)):
+                writes.append(((s.b, s.i), lf, show(n)))
+        elif k == "asg" and n["lhs"].get("k") == "mem":
+            lf = last_field(n["lhs"])
+            if lf in fields:
+                rhs = fn.expand(n["rhs"])
+                if n.get("op") == "-=" and fields[lf] > 0:
+                    writes.append(((s.b, s.i), lf, show(n)))
+                elif n.get("op") == "=":
+                    cv_ = const_of(rhs)
+                    if cv_ is not None and ((cv_ == 0) == (fields[lf] > 0)):
+                        writes.append(((s.b, s.i), lf, show(n)))
+        elif k == "call" and n.get("fn") in LIST_REMOVE and n["args"]:
+            a0 = fn.expand(n["args"][0])
+            lf = last_field(a0)
+            cands = [lf] if lf in fields else []
+            if n["fn"] == "nni_list_node_remove" and lf:
+                rec, fld = lf.split(".", 1)
+                cands += [l for l in nodes.get((rec, fld), ()) if l in fields]
+            for l in cands:
+                if fields[l] > 0:
+                    writes.append(((s.b, s.i), l, show(n)[:50]))
+    return writes
+
+
 
 def rule_wakeups(ctx):
     r = ctx.rule("C10.R9", "T2", "no lost wake-up: for every condition-variable wait loop, each write that can make its condition "
@@ -317,34 +350,7 @@ def rule_wakeups(ctx):
         for fn in prog.functions:
             if fn.cfg_failed:
                 continue
-            writes = []
-            for s in fn.sites():
-                n = s.node
-                k = n.get("k")
-                if k == "un" and n.get("op") in ("--", "++") and n["e"].get("k") == "mem":
-                    lf = last_field(n["e"])
-                    if lf in fields and ((n["op"] == "--") == (fields[lf] > 0)):
-                        writes.append(((s.b, s.i), lf, show(n)))
-                elif k == "asg" and n["lhs"].get("k") == "mem":
-                    lf = last_field(n["lhs"])
-                    if lf in fields:
-                        rhs = fn.expand(n["rhs"])
-                        if n.get("op") == "-=" and fields[lf] > 0:
-                            writes.append(((s.b, s.i), lf, show(n)))
-                        elif n.get("op") == "=":
-                            cv_ = const_of(rhs)
-                            if cv_ is not None and ((cv_ == 0) == (fields[lf] > 0)):
-                                writes.append(((s.b, s.i), lf, show(n)))
-                elif k == "call" and n.get("fn") in LIST_REMOVE and n["args"]:
-                    a0 = fn.expand(n["args"][0])
-                    lf = last_field(a0)
-                    cands = [lf] if lf in fields else []
-                    if n["fn"] == "nni_list_node_remove" and lf:
-                        rec, fld = lf.split(".", 1)
-                        cands += [l for l in nodes.get((rec, fld), ()) if l in fields]
-                    for l in cands:
-                        if fields[l] > 0:
-                            writes.append(((s.b, s.i), l, show(n)[:50]))
+            writes = releasing_writes(fn, fields, nodes)
             if not writes:
                 continue
             wakes = {(s.b, s.i) for s in fn.calls(("nni_cv_wake", "nni_cv_wake1")) if cv_key(fn, s.node["args"][0]) == cv}
@@ -556,6 +562,166 @@ def rule_refs(ctx):
 
 
 
+# ---------------------------------------------------------------------------
+# R7: once an object has left the set a closer waits for, its thread does not touch what the closer tears down
+
+MTX_FINI = ("nni_mtx_fini",)
+THR_JOIN = ("nni_thr_fini", "nni_thr_wait")
+
+
+def _closure(prog, roots):
+    seen = []
+    work = list(roots)
+    while work:
+        g = work.pop()
+        if g in seen or g.cfg_failed:
+            continue
+        seen.append(g)
+        for c in g.calls():
+            for h in callees(prog, g, c.node):
+                if h not in seen:
+                    work.append(h)
+    return seen
+
+
+def dying_locks(prog, wf, ws, depth=2):
+    """Lock classes finalised by what the waiter goes on to do after its wait loop: the calls that follow the wait in
+    wf, and the calls that follow the call to wf in its callers (two levels), closed over the call graph."""
+    roots = []
+    conts = [(wf, (ws.b, ws.i + 1))]
+    level = [wf]
+    for _ in range(depth):
+        nxt = []
+        for g in level:
+            for (c, site) in prog.callers().get(g.name, []):
+                if c.cfg_failed or prog.resolve(c, g.name) is not g:
+                    continue
+                conts.append((c, (site.b, site.i + 1)))
+                nxt.append(c)
+        level = nxt
+    direct = {}
+    for f, start in conts:
+        seen = f.reach(start)
+        for c in f.calls():
+            if (c.b, c.i) in seen:
+                if c.node.get("fn") in MTX_FINI and c.node["args"]:
+                    lf = last_field(f.expand(c.node["args"][0]))
+                    if lf:
+                        direct.setdefault(lf, "%s:%s" % (f.name, c.line))
+                for h in callees(prog, f, c.node):
+                    if h not in roots:
+                        roots.append(h)
+    out = dict(direct)
+    joined = set()
+    for g in _closure(prog, roots):
+        joins = [(c.b, c.i) for c in g.calls(THR_JOIN)]
+        for c in g.calls(MTX_FINI):
+            if c.node["args"]:
+                lf = last_field(g.expand(c.node["args"][0]))
+                if lf:
+                    out.setdefault(lf, "%s:%s" % (g.name, c.line))
+                    # the finalizer joins its worker threads (typically in a loop over them) before it gets here
+                    if any((c.b, c.i) in g.reach((jb, ji + 1)) for (jb, ji) in joins):
+                        joined.add(lf)
+    return out, joined
+
+
+def rule_last_touch(ctx):
+    r = ctx.rule("C10.R7", "T7", "teardown order: the thread that performs the write a closer is waiting for (last reference dropped, "
+                 "object taken off the list the closer drains) does not, after leaving that critical section, acquire a mutex "
+                 "that the closer goes on to finalize -- the wake must be the releasing thread's last touch of the parent", floor=6)
+    prog = ctx.prog
+    from .c15 import node_lists
+    nodes = node_lists(prog)
+    S = summaries(prog)
+    waits = wait_conditions(prog)
+    gates = 0
+    bodies = set()
+    for f in prog.functions:
+        for c in f.calls(("nni_thr_init", "nni_plat_thr_init")):
+            for a in c.node["args"]:
+                a = strip_addr(f.deref(a)) if a is not None else None
+                if a is not None and a.get("k") == "fnref":
+                    bodies.add(a["n"])
+    EXC = {
+        ("sock_shutdown", "nni_socket.s_ctxs"): "sock_shutdown runs on its caller's reference to the socket (nni_sock_shutdown and sock_close are "
+                                                "entered with a hold from nni_sock_find); the closer at sock_close also waits for s_ref to drop to "
+                                                "its own reference, so it cannot pass while this thread is still inside",
+    }
+    for wf, ws, cv, fields in waits:
+        dying, joined = dying_locks(prog, wf, ws)
+        if not dying:
+            continue
+        gates += 1
+        r.notes.append("gate %s@%s (%s): closer finalizes %d lock classes" % (wf.name, ws.line, ",".join(fields), len(dying)))
+        for fn in prog.functions:
+            if fn.cfg_failed or fn is wf:
+                continue
+            writes = releasing_writes(fn, fields, nodes)
+            if not writes:
+                continue
+            info = S.infos.get(fn) or lockinfo(fn)
+
+            def is_unlock(e):
+                return any(m.get("k") == "call" and m.get("fn") == UNLOCK for m in walk(e))
+            for pos, lf, txt in writes:
+                # end of the critical section that contains the write
+                inside = fn.reach((pos[0], pos[1] + 1), blocked=lambda b, i, e: is_unlock(e))
+                ends = set()
+                for (b, i) in inside:
+                    blk = fn.blocks[b]
+                    if i < len(blk.elems):
+                        continue
+                for c in fn.calls(UNLOCK):
+                    # an unlock element that stopped the walk: its predecessor position was visited
+                    if (c.b, c.i) not in inside and ((c.b, c.i - 1) in inside or (c.i == 0 and any(
+                            (pb, len(fn.blocks[pb].elems)) in inside for pb in fn.blocks[c.b].preds)) or (c.b, c.i) == (pos[0], pos[1] + 1)):
+                        ends.add((c.b, c.i))
+                if not ends:
+                    r.ob(fn, "%s line %s: critical section ends with the function" % (txt, fn.line_of(*pos)))
+                    continue
+                # a later loop iteration works on another object: back edges are not followed
+                dom = fn.dominators()
+                after = set()
+                for e in ends:
+                    after |= fn.reach((e[0], e[1] + 1), edge_ok=lambda b, k: fn.blocks[b].succs[k] not in dom[b])
+                hit = None
+                live = {c for c in dying if not (fn.name in bodies and c in joined)}
+                if (fn.name, lf) in EXC:
+                    r.exception("%s %s" % (fn.name, lf), EXC[(fn.name, lf)])
+                    r.ob(fn, "excepted")
+                    continue
+                for apos, (p, cls), held, n in info.acquires:
+                    if apos in after and cls in live:
+                        hit = (apos, cls, (fn.name,))
+                        break
+                if hit is None:
+                    for cpos, n, held in info.calls:
+                        if cpos not in after:
+                            continue
+                        for g in callees(prog, fn, n):
+                            for (cls, p_), chain in S.acq.get(g, {}).items():
+                                if cls in live:
+                                    hit = (cpos, cls, (fn.name,) + chain)
+                                    break
+                            if hit:
+                                break
+                        if hit:
+                            break
+                if hit:
+                    ctx.fail(r, fn, "%s acquired after releasing %s" % (hit[1], lf.split(".")[-1]), fn.line_of(*hit[0]),
+                             "%s (line %s) lets the closer blocked at %s:%s proceed, and the closer goes on to finalize %s (%s); "
+                             "after leaving that critical section this thread still acquires it through %s -- a use after free "
+                             "when the closer wins the race" % (txt, fn.line_of(*pos), wf.name, ws.line, hit[1], dying[hit[1]],
+                                                                " > ".join(hit[2])),
+                             [fn.line_of(*pos)] + [fn.line_of(*e) for e in sorted(ends)][:1] + [fn.line_of(*hit[0])])
+                else:
+                    r.ob(fn, "%s line %s: nothing the closer of %s@%s finalizes is acquired afterwards"
+                         % (txt, fn.line_of(*pos), wf.name, ws.line))
+    if gates < 2:
+        raise AnalysisBroken("only %d teardown gates (wait loops whose continuation finalizes a mutex) recognised" % gates)
+
+
 def rule_closeall(ctx):
     """C10.R5: a close / fini function looks at every parked-operation field it handles on every path"""
     from .. import guards as G
@@ -602,6 +768,7 @@ def run(ctx):   # noqa: F811
     _run0(ctx)
     ctx.guard(rule_refs)
     ctx.guard(rule_closeall)
+    ctx.guard(rule_last_touch)
     ctx.guard(rule_wakeups)
     from . import c02
     ctx.guard(c02.rule_a7)
